@@ -5,6 +5,12 @@ sys.path.insert(0, '/verif/lib')
 import props
 
 LEVEL = {
+ "C03": ("BP.tla is the textbook: flooding (all check messages from the previous variable messages, then all variable updates) and horizontal layered (checks in row order with immediate update), syndrome test after "
+         "every full iteration, generic over arithmetic operators. TLC checks with exact integer min-sum that after #checks+1 forced iterations the LLRs on forests equal the tropical posterior (min-cost difference over all "
+         "codewords) for both schedules. The real generic decoders are bound by trace validation: instantiated with the checker-supplied IntMinSum (value types scaled differently so a mis-routed conversion is visible), one "
+         "long-lived decoder per short call history, and TLC recomputes verdict/word/iterations of every call from BP.tla; the posterior clause is checked with the real Phi/Tanh arithmetics wrapped to iterate diameter(+3) times on random forests against a brute-force posterior.",
+         "TLC + Json/IOUtils; IntMinSum (harness) implements MinSum.tla; brute-force posterior oracle in f64; f32/f64 tolerance constants in Trace_C03.tla, applied inside the working range.",
+         "TLA+ model checking of the textbook schedules (tropical exactness) + trace validation of the real generic decoders with a checker-supplied arithmetic", "5 C03"),
  "C04": ("Arith.tla contains the exact integer model of the sixteen 8-bit check rules (correction table typed independently, fold with clamp, first-minimum A-Min*, saturating lookup, partial hard limit) and the "
          "property-level clauses (one message per neighbour, sign parity of the others, magnitude bound, tracking of the real-valued rule within accumulated table rounding B(kind,d)); TLC proves range, sign and magnitude "
          "clauses on the model by enumeration over a lattice (MC_Arith). The real send_check_messages of all 24 types, called on ONE long-lived arithmetic object per type, is bound by trace validation: TLC "
